@@ -80,15 +80,21 @@ partial def pMsg : P Msg := do
     | _ => throw s!"bad wrapper {kind}"
   | _ => throw s!"bad msg line {f}"
 
-def pBlock (dt nv nt : String) : P Block := do
+def pBlock (dt nv nt : String) (ne : String := "0") : P Block := do
   let dt ← pInt dt
   let nv ← pNat nv
   let nt ← pNat nt
+  let ne ← pNat ne
   let mut votes : List App.Vote := []
   for _ in [0:nv] do
     match ← nextLine with
     | ["VOTE", k, p, a] => votes := votes ++ [{ key := ← pNat k, power := ← pInt p, absent := a == "1" }]
     | l => throw s!"expected VOTE got {l}"
+  let mut evid : List App.Evid := []
+  for _ in [0:ne] do
+    match ← nextLine with
+    | ["EVID", k, h, p] => evid := evid ++ [{ key := ← pNat k, height := ← pInt h, power := ← pInt p }]
+    | l => throw s!"expected EVID got {l}"
   let mut txs : List Tx := []
   let mut counts : List (Signer × Nat) := []
   for _ in [0:nt] do
@@ -104,7 +110,7 @@ def pBlock (dt nv nt : String) : P Block := do
       txs := txs ++ [{ signer := signer, seqOff := off, msgs := msgs }]
     | l => throw s!"expected TX got {l}"
   match ← nextLine with
-  | ["ENDBLOCK"] => pure { dt := dt, votes := votes, txs := txs }
+  | ["ENDBLOCK"] => pure { dt := dt, votes := votes, txs := txs, evid := evid }
   | l => throw s!"expected ENDBLOCK got {l}"
 
 /-! ### printing -/
@@ -154,7 +160,8 @@ def trigName : TrigId → String
 /-- re-run the block's transactions, reporting the triggers met by the successful ones -/
 def trigLines (env : Env) (s0 : App) (b : Block) : List String := Id.run do
   let s1 := { s0 with height := s0.height + 1, time := s0.time + b.dt }
-  let s2 := match App.slashingBegin b.votes s1 with | .ok s => s | .error _ => s1
+  let s2a := match App.slashingBegin b.votes s1 with | .ok s => s | .error _ => s1
+  let s2 := match App.evidenceBegin b.evid s2a with | .ok s => s | .error _ => s2a
   let mut s := match App.poaBegin env.lim s2 with | .ok s => s | .error _ => s2
   let mut incs : List (Signer × Nat) := []
   let mut res : List String := if Trig.lastValidatorJailed s1 s2 then ["TRIG -1 D16"] else []
@@ -182,8 +189,8 @@ partial def runBlocks (s : App) (set : CSet) (halted : Bool) : P Unit := do
   match ← nextLine with
   | ["END"] => out "END"
   | ["RESTART"] => runBlocks s set halted
-  | ["BLOCK", dt, nv, nt] =>
-    let b ← pBlock dt nv nt
+  | "BLOCK" :: dt :: nv :: nt :: rest =>
+    let b ← pBlock dt nv nt (rest.headD "0")
     if halted then runBlocks s set halted
     else
       let h := s.height + 1
@@ -333,7 +340,8 @@ partial def lMsg : Msg → String
 
 def lBlock (b : Block) : String :=
   s!"⟨{lInt b.dt}, " ++ lList (b.votes.map (fun v => s!"⟨{v.key}, {lInt v.power}, {lBool v.absent}⟩")) ++ ", " ++
-  lList (b.txs.map (fun t => s!"⟨{lSigner t.signer}, {t.seqOff}, {lList (t.msgs.map lMsg)}⟩")) ++ "⟩"
+  lList (b.txs.map (fun t => s!"⟨{lSigner t.signer}, {t.seqOff}, {lList (t.msgs.map lMsg)}⟩")) ++ ", " ++
+  lList (b.evid.map (fun e => s!"⟨{e.key}, {lInt e.height}, {lInt e.power}⟩")) ++ "⟩"
 
 def lErr (e : Err) : String :=
   let sp := match e.space with
@@ -356,8 +364,8 @@ partial def certBlocks (name : String) (i : Nat) (s : App) (set : CSet) (acc : L
   match ← nextLine with
   | ["END"] => pure (acc, "RunEnd.done", i - 1, i - 1)
   | ["RESTART"] => certBlocks name i s set acc
-  | ["BLOCK", dt, nv, nt] =>
-    let b ← pBlock dt nv nt
+  | "BLOCK" :: dt :: nv :: nt :: rest =>
+    let b ← pBlock dt nv nt (rest.headD "0")
     let acc := acc ++ [s!"def b{i} : Block := {lBlock b}"]
     match App.block theEnv s b with
     | .error hk =>
